@@ -304,7 +304,11 @@ impl<'a> Gen<'a> {
             let recipes: [&str; 10] = [":)", ":", "de:sh", ";)", "\"a\"", ":`", "o`", "`", "a`", "=s"];
             let n = self.rng.range(1, 3);
             for _ in 0..n {
-                let t = if self.rng.pct(70) { self.rng.pick(&recipes).to_string() } else { self.text() };
+                let t = match self.rng.weighted(&[55, 25, 20]) {
+                    0 => self.rng.pick(&recipes).to_string(),
+                    1 if cfgs[0].has(PHON_SUG) => self.rich_word(cfgs[0]),
+                    _ => self.text(),
+                };
                 // the same text committed once or several times in a row (each commit of a
                 // non-preselected index moves the learned choice, also to an empty candidate)
                 for _ in 0..self.rng.range(0, 2) {
@@ -423,10 +427,27 @@ impl<'a> Gen<'a> {
                         }
                     }
                     if self.rng.pct(60) {
+                        if self.rng.pct(35) {
+                            // an edit detour right before the mark: a letter or two typed and
+                            // deleted again, so that the list shown last came from a backspace
+                            // and the list before it belonged to a longer text
+                            let junk = self.random_letters(1, 2);
+                            for c in junk.chars() {
+                                let s = sel(self);
+                                ops.push(Op::Key { h: hb, key: key_for(self.env, c).unwrap(), m: 0, sel: s });
+                            }
+                            for _ in 0..junk.len() {
+                                ops.push(Op::Bs { h: hb, ctrl: false });
+                            }
+                        }
                         let n = self.rng.range(1, 3);
                         for _ in 0..n {
                             let c = *self.rng.pick(PRESERVING) as char;
-                            let s = if valid_sel { Sel::Valid(255 - self.rng.below(3) as u8) } else { sel(self) };
+                            let s = if valid_sel {
+                                if self.rng.coin() { Sel::Top(self.rng.below(3) as u8) } else { Sel::Valid(255 - self.rng.below(3) as u8) }
+                            } else {
+                                sel(self)
+                            };
                             ops.push(Op::Key { h: hb, key: key_for(self.env, c).unwrap(), m: 0, sel: s });
                             since_term[h] += 1;
                         }
@@ -473,6 +494,23 @@ impl<'a> Gen<'a> {
     /// Candidate list riti shows for `text` under `cfg` over an empty disk (used only to
     /// plant *realistic* learned entries; part of generation, a pure function of the seed
     /// and the code).
+    /// A short typed word with a long candidate list under `cfg` (the longest of three
+    /// probed): where a learned choice can sit deep in the list.
+    fn rich_word(&mut self, cfg: CfgSpec) -> String {
+        let mut probe: Option<Host> = None;
+        let mut best = (0usize, String::from("a"));
+        for _ in 0..3 {
+            let w = self.rng.pick(&self.env.dict_spellings).clone();
+            let cut = self.rng.range(2, 4).min(w.len() as u64) as usize;
+            let w = w[..cut.max(1)].to_string();
+            let n = self.probe_candidates(&mut probe, cfg.with(SMART_QUOTE, false), &w).len();
+            if n >= best.0 {
+                best = (n, w);
+            }
+        }
+        best.1
+    }
+
     fn probe_candidates(&self, host: &mut Option<Host>, cfg: CfgSpec, text: &str) -> Vec<String> {
         if host.is_none() {
             *host = Host::spawn(cfg, SimDisk::new(), &self.env.paths).ok();
@@ -559,17 +597,67 @@ impl<'a> Gen<'a> {
                 }
             }
         }
+        // the user's auto-correct list: absent, or present from the start; in the "edited"
+        // variant it is rewritten by its editor half-way and every context re-loads it (idle
+        // update_engine) before the target is typed, so that caches warmed under the earlier
+        // version meet the later one. All compared contexts end up with the same version.
+        let core_t: String = target.chars().filter(|c| c.is_ascii_alphabetic()).collect();
+        let mut ac0 = serde_json::Map::new();
+        if !core_t.is_empty() && self.rng.pct(40) {
+            for _ in 0..self.rng.range(1, 2) {
+                let k = match self.rng.weighted(&[55, 30, 15]) {
+                    0 => core_t.clone(),
+                    1 => core_t[..self.rng.range(1, core_t.len() as u64) as usize].to_string(),
+                    _ => format!("{}{}", core_t, self.short_suffix()),
+                };
+                let v = self.autocorrect_value();
+                ac0.insert(k.to_ascii_lowercase(), serde_json::Value::String(v));
+            }
+        }
+        let edited = self.rng.pct(if ac0.is_empty() { 12 } else { 60 });
+        let ac_edit: Option<FileSt> = if edited {
+            let mut ac1 = ac0.clone();
+            Some(match self.rng.weighted(&[35, 20, 15, 30]) {
+                0 if !ac1.is_empty() => {
+                    // an entry is deleted
+                    let k = ac1.keys().next().cloned().unwrap();
+                    ac1.remove(&k);
+                    FileSt::Text(serde_json::Value::Object(ac1).to_string())
+                }
+                1 if !ac1.is_empty() => {
+                    // an entry gets another replacement
+                    let k = ac1.keys().next().cloned().unwrap();
+                    let v = self.autocorrect_value();
+                    ac1.insert(k, serde_json::Value::String(v));
+                    FileSt::Text(serde_json::Value::Object(ac1).to_string())
+                }
+                // every entry is deleted (the file stays: deleting the file itself leaves no
+                // mtime to advance and is not an "edit", see C11)
+                2 if !ac1.is_empty() => FileSt::Text("{}".into()),
+                _ => {
+                    // an entry is added (for the target, or for its base)
+                    let k = if core_t.is_empty() { "a".to_string() } else { core_t.to_ascii_lowercase() };
+                    let v = self.autocorrect_value();
+                    ac1.insert(k, serde_json::Value::String(v));
+                    FileSt::Text(serde_json::Value::Object(ac1).to_string())
+                }
+            })
+        } else {
+            None
+        };
         let prelude = Prelude {
             store: if store.is_empty() { None } else { Some(serde_json::Value::Object(store).to_string()) },
-            autocorrect: None,
+            autocorrect: if ac0.is_empty() { None } else { Some(serde_json::Value::Object(ac0).to_string()) },
         };
 
         // the selection byte of the final key: fixed, or counted from the end of the list
         // shown just before (the same list in every execution, so the same byte)
         let final_sel = if shrinking || self.rng.pct(15) { Sel::Top(self.rng.below(2) as u8) } else { Sel::Raw(final_byte) };
         let final_key = |h: u8| Op::Key { h, key: key_for(self.env, last_char).unwrap_or(0xA096), m: 0, sel: final_sel };
-        // per-host op sequences
+        // per-host op sequences; `splits[i]` = where the part begins that must run after the
+        // edit of the auto-correct list (edited variant only)
         let mut seqs: Vec<Vec<Op>> = Vec::new();
+        let mut splits: Vec<usize> = Vec::new();
         // X0: fresh context, typed straight
         {
             let mut v = vec![Op::Spawn { h: 0, cfg }];
@@ -577,6 +665,7 @@ impl<'a> Gen<'a> {
             self.type_text(&mut v, 0, &head, Sel::Presel);
             v.push(final_key(0));
             seqs.push(v);
+            splits.push(0);
         }
         let n_exec = self.rng.range(1, 3) as u8;
         for e in 1..=n_exec {
@@ -621,6 +710,7 @@ impl<'a> Gen<'a> {
                 }
             }
             // reach T by an edit history
+            splits.push(v.len());
             let via_bs = self.rng.pct(30);
             let mut cur = 0usize; // number of target chars in the buffer
             let goal = if via_bs { n } else { n - 1 };
@@ -688,9 +778,36 @@ impl<'a> Gen<'a> {
                     _ => v.push(Op::Bs { h, ctrl: true }),
                 }
             }
+            splits.push(v.len() / 2);
             seqs.push(v);
         }
-        let ops = self.interleave(seqs);
+        let ops = match ac_edit {
+            None => self.interleave(seqs),
+            Some(st) => {
+                let mut first: Vec<Vec<Op>> = Vec::new();
+                let mut second: Vec<Vec<Op>> = Vec::new();
+                for (v, at) in seqs.into_iter().zip(splits) {
+                    let h = v.first().and_then(|o| o.host()).unwrap_or(0);
+                    let tail = v[at..].to_vec();
+                    let mut head = v;
+                    head.truncate(at);
+                    let mut t = Vec::new();
+                    if at > 0 && h != 4 {
+                        // the context exists already: it re-loads its configuration while idle
+                        t.push(Op::Finish { h });
+                        t.push(Op::Update { h, cfg });
+                    }
+                    t.extend(tail);
+                    first.push(head);
+                    second.push(t);
+                }
+                let mut ops = self.interleave(first);
+                ops.push(Op::Clock { dt: self.rng.range(1, 50) * 1_000_000_000 });
+                ops.push(Op::SetFile { file: FileId::Autocorrect, st, mt: Mt::Now });
+                ops.extend(self.interleave(second));
+                ops
+            }
+        };
         Plan { scenario: Scenario::HistoryIndependence, hash_seed: self.rng.next_u64(), prelude, ops }
     }
 
